@@ -127,7 +127,7 @@ def check_accumulator(out, facts):
             ctx = sym.Ctx(evl, g)
             for pi, p in enumerate(g['params']):
                 ctx.env[p['v']] = ('param', ['input', 'mem_limit'][pi] if pi < 2 else p['name'], p.get('ty'))
-            v, t = evl.ev(g['thir'], ctx)
+            v, t = sym.fn_value(evl, g, ctx)
             out.ob('R12.1', 'MemTrackingInput::new [%s]' % cfg, sym.vstr(v) == 'MemTrackingInput::MemTrackingInput{0: input, 1: 0:usize, 2: mem_limit}',
                    'new() is not {input, used_mem: 0, mem_limit}: ' + sym.vstr(v), g['loc'])
     fl = [g for g in facts.methods('DecodeWithMemLimit', 'decode_with_mem_limit') if g['kind'] == 'AssocFn']
